@@ -49,7 +49,7 @@ CHECKS = {
               "Non-trivial: >=2 periods and (amount not divisible at one decimal, negative amount, >=2 bookings, or an equity leg); distinct by transaction."),
         assumptions=["equal-sized parts are not asserted (not promised by the statement)", "windows with start>end are outside the property (C14 covers the crash)"],
         quick=dict(tests=[dict(name="TestC10", cases=320000), dict(name="TestC10CLI", cases=4800)]),
-        thorough=dict(tests=[dict(name="TestC10", cases=3200000), dict(name="TestC10CLI", cases=32000)]),
+        thorough=dict(tests=[dict(name="TestC10", cases=9600000), dict(name="TestC10CLI", cases=160000)]),
     ),
     "C01": dict(
         level="exploration",
@@ -61,7 +61,7 @@ CHECKS = {
               "Non-trivial: >=2 transactions, a non-zero total cell, and (valued or >=2 commodities or >=2 columns); distinct by (journal text, flags)."),
         assumptions=["a non-zero exit of knut makes the case vacuous for C01 (label knut-rejected in the histogram; C04/C03 decide those)"],
         quick=dict(tests=[dict(name="TestC01", cases=24000)]),
-        thorough=dict(tests=[dict(name="TestC01", cases=160000)]),
+        thorough=dict(tests=[dict(name="TestC01", cases=480000)]),
     ),
     "C02": dict(
         level="exploration",
@@ -74,7 +74,7 @@ CHECKS = {
               "application orders differ, either is accepted. Non-trivial: >=3 in-window bookings, >=2 non-zero cells and a mapping/remap/filter/diff/last or closing over >=2 columns."),
         assumptions=["accrual split rule as documented", "knut's regexp engine (Go regexp) is also used by the reference for flag regexes"],
         quick=dict(tests=[dict(name="TestC02", cases=24000)]),
-        thorough=dict(tests=[dict(name="TestC02", cases=160000)]),
+        thorough=dict(tests=[dict(name="TestC02", cases=480000)]),
     ),
     "C12": dict(
         level="exploration",
@@ -91,7 +91,7 @@ CHECKS = {
                      "CLI: declarations of one journal get pairwise different dates (same-day order is not part of the statement)",
                      "the reciprocal may be either neighbouring 8-decimal value when the exact quotient lies within 1e-16 below a boundary"],
         quick=dict(tests=[dict(name="TestC12", cases=60000), dict(name="TestC12CLI", cases=1600)]),
-        thorough=dict(tests=[dict(name="TestC12", cases=300000), dict(name="TestC12CLI", cases=5000)]),
+        thorough=dict(tests=[dict(name="TestC12", cases=6000000), dict(name="TestC12CLI", cases=100000)]),
     ),
     "C03": dict(
         level="exploration",
@@ -106,7 +106,7 @@ CHECKS = {
               "Non-trivial: a non-V A/L position is held across a price change inside the window and (chain or inverse price, a liability, or >=2 columns); or a missing price in the window."),
         assumptions=["forest price graphs only (unique chain)", "a reciprocal within 1e-16 below an 8-decimal boundary is not generated (probability ~1e-8 per price)"],
         quick=dict(tests=[dict(name="TestC03", cases=19200)]),
-        thorough=dict(tests=[dict(name="TestC03", cases=128000)]),
+        thorough=dict(tests=[dict(name="TestC03", cases=480000)]),
     ),
     "C08": dict(
         level="exploration",
@@ -158,7 +158,7 @@ CHECKS = {
               "when prices exist) knut balance J == knut balance P1 byte for byte (and same exit status). Non-trivial: J has >=1 special feature and P1 != J; distinct by (journal, flags)."),
         assumptions=["balance output is deterministic (C06)"],
         quick=dict(tests=[dict(name="TestC09", cases=4800)]),
-        thorough=dict(tests=[dict(name="TestC09", cases=32000)]),
+        thorough=dict(tests=[dict(name="TestC09", cases=128000)]),
     ),
     "C17": dict(
         level="exploration",
@@ -174,7 +174,7 @@ CHECKS = {
               "labels and header equal. Non-trivial: >=2 numeric columns of different natural width and a value that is grouped or sits exactly on a rounding boundary."),
         assumptions=["width is counted in runes (not terminal cells), as the property's anchors state"],
         quick=dict(tests=[dict(name="TestC17", cases=48000), dict(name="TestC17CLI", cases=2400)]),
-        thorough=dict(tests=[dict(name="TestC17", cases=320000), dict(name="TestC17CLI", cases=8000)]),
+        thorough=dict(tests=[dict(name="TestC17", cases=4000000), dict(name="TestC17CLI", cases=100000)]),
     ),
     "C13": dict(
         level="exploration",
@@ -204,10 +204,10 @@ CHECKS = {
                           dict(name="TestC13A_Swisscard", cases=400, shards=2), dict(name="TestC13A_Swisscard2", cases=400, shards=2), dict(name="TestC13A_Viac", cases=400, shards=2),
                           dict(name="TestC13B_Revolut", cases=640, shards=2), dict(name="TestC13B_Revolut2", cases=640, shards=2), dict(name="TestC13B_Wise", cases=640, shards=2),
                           dict(name="TestC13B_Swissquote", cases=640, shards=2), dict(name="TestC13B_InteractiveBrokers", cases=640, shards=2)]),
-        thorough=dict(tests=[dict(name="TestC13A_Cumulus", cases=3200, shards=4), dict(name="TestC13A_Postfinance", cases=3200, shards=4), dict(name="TestC13A_Supercard", cases=3200, shards=4),
-                             dict(name="TestC13A_Swisscard", cases=3200, shards=4), dict(name="TestC13A_Swisscard2", cases=3200, shards=4), dict(name="TestC13A_Viac", cases=3200, shards=4),
-                             dict(name="TestC13B_Revolut", cases=4800, shards=4), dict(name="TestC13B_Revolut2", cases=4800, shards=4), dict(name="TestC13B_Wise", cases=4800, shards=4),
-                             dict(name="TestC13B_Swissquote", cases=4800, shards=4), dict(name="TestC13B_InteractiveBrokers", cases=4800, shards=4)]),
+        thorough=dict(tests=[dict(name="TestC13A_Cumulus", cases=12800, shards=8), dict(name="TestC13A_Postfinance", cases=12800, shards=8), dict(name="TestC13A_Supercard", cases=12800, shards=8),
+                             dict(name="TestC13A_Swisscard", cases=12800, shards=8), dict(name="TestC13A_Swisscard2", cases=12800, shards=8), dict(name="TestC13A_Viac", cases=12800, shards=8),
+                             dict(name="TestC13B_Revolut", cases=19200, shards=8), dict(name="TestC13B_Revolut2", cases=19200, shards=8), dict(name="TestC13B_Wise", cases=19200, shards=8),
+                             dict(name="TestC13B_Swissquote", cases=19200, shards=8), dict(name="TestC13B_InteractiveBrokers", cases=19200, shards=8)]),
     ),
     "C16": dict(
         level="exploration",
@@ -219,7 +219,7 @@ CHECKS = {
               "Non-trivial: >=2 user transactions and >=1 value adjustment; distinct by (journal, V)."),
         assumptions=["forest price graphs only", "journals with a missing price are left to C03"],
         quick=dict(tests=[dict(name="TestC16", cases=12800)]),
-        thorough=dict(tests=[dict(name="TestC16", cases=64000)]),
+        thorough=dict(tests=[dict(name="TestC16", cases=480000)]),
     ),
     "C15": dict(
         level="exploration",
@@ -250,7 +250,7 @@ CHECKS = {
               "deposit-only period, and a period end on a directive-free day."),
         assumptions=["dates whose total holdings are (nearly) zero are skipped (shares undefined)", "weights without --from (the balance drops history before --from, weights do not)"],
         quick=dict(tests=[dict(name="TestC20Weights", cases=4800), dict(name="TestC20Returns", cases=9600)]),
-        thorough=dict(tests=[dict(name="TestC20Weights", cases=32000), dict(name="TestC20Returns", cases=64000)]),
+        thorough=dict(tests=[dict(name="TestC20Weights", cases=160000), dict(name="TestC20Returns", cases=320000)]),
     ),
     "C19": dict(
         level="exploration",
